@@ -68,6 +68,8 @@ def make_reads(n_alleles, read_set, seed):
         for j, a in enumerate(n_alleles):
             reads[:, j, a:] = 0.0
         reads[0, 0, :] = np.nan
+        if nb >= 3:
+            reads[2, 1, :] = np.nan  # a gap *inside* a read (observed - missing - observed), as a read pair leaves it
         counts = np.array([1, 2, 1, 3])
     else:
         nr = 5
@@ -80,6 +82,8 @@ def make_reads(n_alleles, read_set, seed):
                 reads[r, j, call] = 1 - e if a > 1 else 1.0
         reads[1, nb - 1, :] = np.nan
         reads[3, 0, :] = np.nan
+        if nb >= 3:
+            reads[2, 1, :] = np.nan
         counts = np.array([2, 1, 1, 1, 4])
     return reads, counts
 
